@@ -21,6 +21,9 @@ func (x *Exec) isDroppedCall(call *ast.CallExpr) bool {
 					return true
 				}
 			}
+			if t := x.typeOf(id); t != nil && types.TypeString(t, nil) == "context.CancelFunc" {
+				return true
+			}
 		}
 		return false
 	}
@@ -953,9 +956,17 @@ func (x *Exec) applyContractSig(st *State, call *ast.CallExpr, sig *types.Signat
 			panic(unsupported("counts: unknown ghost " + cd.Ghost))
 		}
 		cur := x.ghostVal(st, g)
-		cond := post.boolean(cd.Cond)
 		nv := cur
-		nv.T = ite(cond, x.vc.arith("+", cur.T, x.vc.intLit(1), true), cur.T)
+		if cd.Assign != nil {
+			av := post.value(cd.Assign)
+			if av.Sort != cur.Sort {
+				panic(unsupported("records: sort mismatch for ghost " + cd.Ghost))
+			}
+			nv.T = av.T
+		} else {
+			cond := post.boolean(cd.Cond)
+			nv.T = ite(cond, x.vc.arith("+", cur.T, x.vc.intLit(1), true), cur.T)
+		}
 		st.heap["G:"+cd.Ghost] = x.nameAlways(cd.Ghost, nv)
 	}
 	kind := c.Kind
